@@ -150,7 +150,7 @@ def job(jc, n):
 def run(ctx):
     hook.install()
     ctx.functions_encoded = FUNCS
-    ns = [2, 3]
+    ns = [2, 3, 4, 5] if ctx.thorough else [2, 3]
     ctx.bounds = dict(sessions=ns, scheduling_points='every read (len, count, find, find_one) and every insert on table session (the 3 other table '
                       'look-ups are not operations on shared state)', interleavings='all')
     ctx.stubs = ['dataset.connect -> database model: table = list of rows, unique auto-increment primary key, len() and insert() '
@@ -158,7 +158,7 @@ def run(ctx):
     ctx.assumptions = ['the database executes each single statement atomically (SQLite does)',
                        'HONEST NOTE: the engine only enumerates schedules here (no solver query); the database model is trusted and '
                        'confirmed by replaying violating schedules against the real dataset / SQLite in separate processes']
-    ctx.outside_claim = ['more than 3 sessions', 'crashes between the two statements']
+    ctx.outside_claim = ['more than %d sessions' % ns[-1], 'crashes between the two statements']
     ctx.diff_unhooked(sys.modules[__name__], [dict(n=2, order=[0, 0, 0, 1, 1, 1]), dict(n=2, order=[1, 0, 1, 0, 1, 0])])
     ctx.pmap(job, ns)
 
